@@ -12,10 +12,14 @@ package main
 
 import (
 	"bytes"
+	"encoding/json"
 	"encoding/xml"
 	"errors"
 	"fmt"
 	"io"
+	"os"
+	"os/exec"
+	"path/filepath"
 	"sort"
 	"strconv"
 	"strings"
@@ -800,13 +804,10 @@ func c03runSessionFault(v string, neg int, sc, nh bool, ops []c03op, writeErrAft
 	s.WriteErrAfter = writeErrAfter
 	s.Behave = func(i int, req sim.NCRequest) sim.NCReply {
 		if bytes.Contains(req.Raw, []byte("<establish-subscription ")) {
-			// The subscription-id element is written in upper case on purpose: the library finds it
-			// case-insensitively, but a reply containing the exact text "</subscription-id>" makes the
-			// read loop store it with storeSubscriptionMessage while EstablishPeriodicSubscription
-			// writes the same map without the lock -- a data race outside this property (reported
-			// with /tmp/w/C03/subrace: go test -race, fix.patch) that kills the whole harness process
-			// with "fatal error: concurrent map writes" about once in ten runs.
-			return sim.NCReply{Payload: []byte(fmt.Sprintf(`<rpc-reply xmlns="%s" message-id="%d"><subscription-result xmlns="urn:ietf:params:xml:ns:yang:ietf-event-notifications">notif-bis:ok</subscription-result><SUBSCRIPTION-ID xmlns="urn:ietf:params:xml:ns:yang:ietf-event-notifications">%d</SUBSCRIPTION-ID></rpc-reply>`, c03BaseNS, req.MessageID, 1000+i))}
+			// lower-case subscription-id: the read loop stores this reply with storeSubscriptionMessage
+			// concurrently with the caller registering the subscription (the once racy pair, see
+			// c03raceChild)
+			return sim.NCReply{Payload: []byte(fmt.Sprintf(`<rpc-reply xmlns="%s" message-id="%d"><subscription-result xmlns="urn:ietf:params:xml:ns:yang:ietf-event-notifications">notif-bis:ok</subscription-result><subscription-id xmlns="urn:ietf:params:xml:ns:yang:ietf-event-notifications">%d</subscription-id></rpc-reply>`, c03BaseNS, req.MessageID, 1000+i))}
 		}
 		return sim.NCReply{Payload: []byte(fmt.Sprintf(`<rpc-reply xmlns="%s" message-id="%d"><ok/></rpc-reply>`, c03BaseNS, req.MessageID))}
 	}
@@ -965,6 +966,9 @@ func runC03(c *ctx) {
 				sp.wfPh, _ = strconv.Atoi(f[10])
 			}
 			sess = append(sess, sp)
+		case len(f) == 3 && f[1] == "subrace":
+			c.c03raceChild()
+			return
 		case len(f) == 3 && f[1] == "fsc":
 			b, _ := vlib.UnHex(f[2])
 			addDirect("replay", b)
@@ -1029,6 +1033,9 @@ func runC03(c *ctx) {
 		c03direct(c, direct[lo:hi], directClass[lo:hi])
 	}
 	c03directNotes(res)
+	if c.replay == "" {
+		c.c03raceChild()
+	}
 	for lo := 0; lo < len(sess); lo += 160 {
 		hi := lo + 160
 		if hi > len(sess) {
@@ -1041,6 +1048,51 @@ func runC03(c *ctx) {
 			batch = append(batch, cs)
 		}
 		c03sessions(c, batch)
+	}
+}
+
+// c03raceChild builds cmd/c03race with -race next to the driver copy bin/check made and runs it:
+// 200 (thorough 1000) EstablishPeriodicSubscription calls whose replies the read loop stores
+// concurrently. A reported data race, a crash of the child or a wrong subscription store is a
+// finding; if the race binary cannot be built the run is noted, not failed.
+func (c *ctx) c03raceChild() {
+	res := c.res
+	build := filepath.Dir(c.driver)
+	mf := filepath.Join(build, "go.mod")
+	if _, err := os.Stat(mf); err != nil {
+		res.Note("subscription race child not run: no go.mod next to the driver (%s)", mf)
+		return
+	}
+	bin := filepath.Join(build, "c03race")
+	cmd := exec.Command("go", "build", "-race", "-modfile", mf, "-o", bin, "./cmd/c03race")
+	cmd.Env = append(os.Environ(), "CGO_ENABLED=1")
+	if b, err := cmd.CombinedOutput(); err != nil {
+		res.Note("subscription race child not run: go build -race failed: %s", c03clip(strings.TrimSpace(string(b)), 300))
+		return
+	}
+	calls := c.n(200, 1000)
+	line := fmt.Sprintf("c03 subrace %d", calls)
+	run := exec.Command(bin, "-calls", strconv.Itoa(calls))
+	run.Env = append(os.Environ(), "GORACE=halt_on_error=1 exitcode=66")
+	var stdout, stderr bytes.Buffer
+	run.Stdout, run.Stderr = &stdout, &stderr
+	err := run.Run()
+	res.Case(line, true)
+	res.Count("subscription-race-child:calls=" + strconv.Itoa(calls))
+	var rep struct {
+		Calls     int
+		Violation string
+		Detail    string
+	}
+	switch {
+	case strings.Contains(stderr.String(), "DATA RACE"):
+		res.Fail("oracle", line, "race detector while establishing subscriptions:\n"+c03clip(stderr.String(), 900), "subscription-race")
+	case json.Unmarshal(bytes.TrimSpace(stdout.Bytes()), &rep) != nil:
+		res.Fail("oracle", line, fmt.Sprintf("subscription child died (%v): %s", err, c03clip(stderr.String(), 600)), "subscription-child-died")
+	case rep.Violation != "":
+		res.Fail("correspondence", line, rep.Detail, "subscription-child:"+rep.Violation)
+	default:
+		res.Note("subscription race child: %d EstablishPeriodicSubscription calls under -race, no race, every establishing reply stored once under its subscription id", rep.Calls)
 	}
 }
 
